@@ -112,7 +112,9 @@ fn canon(be: Be, k: Kind, raw: &[u8]) -> Vec<u8> {
 pub fn gen_c05(out: &mut impl Write, seed: u64, thorough: bool) {
     let mut r = Rng::new(seed ^ 0xC05);
     let mut cache = vec![];
-    let passwords: Vec<Vec<u8>> = vec![vec![], vec![0x70], b"correct horse battery staple".to_vec(), vec![0xff, 0xfe, 0x00, 0x80], r.bytes(1024)];
+    let mut passwords: Vec<Vec<u8>> = vec![vec![], vec![0x70], b"correct horse battery staple".to_vec(), vec![0xff, 0xfe, 0x00, 0x80], r.bytes(1024)];
+    // lengths around the block sizes of the hash under the KDF (64 / 128 bytes): a pre-hashing shortcut is off by one exactly there
+    for n in [63usize, 64, 65, 127, 128, 129, 255, 256, 257] { passwords.push(r.pattern(n)); }
     if thorough {
         // valid Argon2id memory costs at and beyond the 32-bit boundaries of the byte count (2 GiB, 4 GiB): implementation only
         // (the round trip really evaluates Argon2id over that much memory; the lines are adjacent so that one worker runs them in turn)
@@ -457,7 +459,7 @@ pub fn gen_c07(out: &mut impl Write, seed: u64, thorough: bool) {
         // Argon2id parallelism > 1 (RustCrypto back ends; libsodium's restriction to p = 1 is a recorded finding): library-built
         // blobs must be reproduced by the model, and specification-built blobs must be accepted
         if be == Be::V2 || be == Be::V4 {
-            for (mem, t, par) in [(32u64 * 1024, 1u32, 2u32), (64 * 1024, 2, 4), (24 * 1024, 1, 3)] {
+            for (mem, t, par) in [(32u64 * 1024, 1u32, 2u32), (64 * 1024, 2, 4), (24 * 1024, 1, 3), (16 * 1024 + 512, 1, 1), (65537, 1, 1), (66559, 1, 1), (8192 + 1023, 2, 1)] {
                 let mut params = mem.to_be_bytes().to_vec();
                 params.extend(t.to_be_bytes());
                 params.extend(par.to_be_bytes());
@@ -1178,6 +1180,20 @@ pub fn gen_c19smoke(out: &mut impl Write, seed: u64, thorough: bool) {
                 writeln!(out, "kparse {b} {kn} {}", hex(text.as_bytes())).unwrap();
                 for other in ["local", "secret", "public"] {
                     writeln!(out, "kparse {b} {other} {}", hex(text.as_bytes())).unwrap();
+                }
+            }
+            if i == 0 && (be == Be::V2 || be == Be::V4) {
+                // small-order / degenerate points and near-misses: every build must give the same verdict
+                let mut ident = vec![0u8; 32]; ident[0] = 1;
+                let mut minus1 = vec![0xffu8; 32]; minus1[0] = 0xec; minus1[31] = 0x7f;
+                let ord8 = unhex("26e8958fc2b227b045c3f489f2ef98f0d5dfac05d3c63339b13802886d53fc05").unwrap();
+                let ord4 = vec![0u8; 32];
+                let mut noncanon = vec![0xffu8; 32]; noncanon[0] = 0xee; noncanon[31] = 0x7f;      // y = p + 1
+                for raw in [&ident, &minus1, &ord8, &ord4, &noncanon] {
+                    for kn in ["public", "pkepublic"] {
+                        writeln!(out, "kdec {b} {kn} {}", hex(raw)).unwrap();
+                        writeln!(out, "id {b} {kn} {}", hex(raw)).unwrap();
+                    }
                 }
             }
             let ids: Vec<(&str, String)> = with_v!(be, V => vec![
